@@ -415,8 +415,12 @@ func (d *DFA) Isomorphic(rhs *DFA) bool {
 	}
 
 	// D₁ and D₂ must have the same sorted degree sequence.
-	// len(degrees1) == len(degrees2) since D₁ and D₂ have the same number of states.
+	// Only states with at least one transition have a degree, so the two sequences can differ in length.
 	degrees1, degrees2 := d.getSortedDegreeSequence(), rhs.getSortedDegreeSequence()
+	if len(degrees1) != len(degrees2) {
+		return false
+	}
+
 	for i := range degrees1 {
 		if degrees1[i] != degrees2[i] {
 			return false
@@ -424,12 +428,12 @@ func (d *DFA) Isomorphic(rhs *DFA) bool {
 	}
 
 	// Since generatePermutations uses backtracking and modifies the slice in-place, we need a copy.
-	states := make([]State, len(states1))
-	copy(states, states1)
+	states := make([]State, len(states2))
+	copy(states, states2)
 
-	// Methodically checking if any permutation of D₁ states is equal to D₂.
+	// Methodically checking if any bijection from D₁ states onto D₂ states (a permutation of D₂ states) maps D₁ to D₂.
 	return !generatePermutations(states, 0, len(states)-1, func(permutation []State) bool {
-		// Create a bijection between the states of D₁ and the current permutation of D₁.
+		// Create a bijection between the states of D₁ and the current permutation of the states of D₂.
 		// A bijection or bijective function is a type of function that creates a one-to-one correspondence between two sets (states1 ↔ permutation).
 		bijection := make(map[State]State, len(states1))
 		for i, s := range states1 {
@@ -469,9 +473,9 @@ func (d *DFA) getSortedDegreeSequence() []int {
 		}
 	}
 
-	sortedDegrees := make([]int, len(totalDegrees))
-	for i, degree := range totalDegrees {
-		sortedDegrees[i] = degree
+	sortedDegrees := make([]int, 0, len(totalDegrees))
+	for _, degree := range totalDegrees {
+		sortedDegrees = append(sortedDegrees, degree)
 	}
 
 	sort.Quick3Way[int](sortedDegrees, generic.NewCompareFunc[int]())
